@@ -478,6 +478,14 @@ class Doc(object):
             self.sub(pm, 'physics_material', id=self.uid('pm'))
             libs.append(pm)
         libs = [l for l in libs if len(l) or r.random() < 0.5]
+        # the schema allows any number of library elements of one kind: split some
+        for l in list(libs):
+            if len(l) >= 2 and r.random() < 0.15:
+                second = ET.Element(l.tag)
+                for ch in list(l)[len(l) // 2:]:
+                    l.remove(ch)
+                    second.append(ch)
+                libs.insert(libs.index(l) + 1 + (r.randrange(len(libs)) if self.o['perm'] else 0), second)
         if self.o['perm']:
             r.shuffle(libs)
         for l in libs:
